@@ -476,3 +476,86 @@ func (c *Ctx) returnsOf(fname string) []string {
 	}
 	return out
 }
+
+// GuardedFrom (K2 variant): every path from an instruction matching from to a
+// target leaves an If by an edge establishing one of the guards.
+func (c *Ctx) GuardedFrom(key, fname string, from, target IM, guards []*Guard, min int, desc, why string) {
+	rule := "K2 Guarded"
+	fn := c.F(fname)
+	if !c.need(key, rule, desc, fn, fname) {
+		return
+	}
+	fr, tg := Instrs(fn, from), Instrs(fn, target)
+	if len(fr) < 1 || len(tg) < min {
+		c.fail(key, rule, desc, why, fmt.Sprintf("%d start and %d target site(s) matched in %s", len(fr), len(tg), fname), len(tg))
+		return
+	}
+	s := &Search{P: c.P, Fn: fn, From: fr, Block: c.P.EdgesAsserting(guards...), Tgt: target}
+	if f := s.Run(); f != nil {
+		c.fail(key, rule, desc, why, fmt.Sprintf("target %s reachable after %s without passing the required branch; path %s", c.where(f.Instr), c.whereFirst(fr), c.P.TraceString(f.Trace)), len(tg))
+		return
+	}
+	c.ok(key, rule, desc, len(tg))
+}
+
+// EdgeReturns (K6+K4): every return reachable after taking an edge that
+// establishes g returns a last result whose origin matches re.
+func (c *Ctx) EdgeReturns(key, fname string, g *Guard, re string, min int, desc, why string) {
+	rule := "K6 Origin on exits of a branch"
+	fn := c.F(fname)
+	if !c.need(key, rule, desc, fn, fname) {
+		return
+	}
+	rx := regexp.MustCompile("^(?:" + re + ")$")
+	n := 0
+	for _, b := range fn.Blocks {
+		for i, sb := range b.Succs {
+			if !c.P.EdgeAsserts(Edge{b, i}, g) {
+				continue
+			}
+			n++
+			seen := map[*ssa.BasicBlock]bool{}
+			var stack = []*ssa.BasicBlock{sb}
+			for len(stack) > 0 {
+				x := stack[len(stack)-1]
+				stack = stack[:len(stack)-1]
+				if seen[x] {
+					continue
+				}
+				seen[x] = true
+				for _, in := range x.Instrs {
+					if r, ok := in.(*ssa.Return); ok && len(r.Results) > 0 {
+						got := c.P.Render(returnedValue(r, len(r.Results)-1))
+						if !rx.MatchString(got) {
+							c.fail(key, rule, desc, why, fmt.Sprintf("return at %s yields %q after the branch %s=%v", c.where(r), got, g.Re, g.Val), n)
+							return
+						}
+					}
+				}
+				stack = append(stack, x.Succs...)
+			}
+		}
+	}
+	if n < min {
+		c.fail(key, rule, desc, why, fmt.Sprintf("only %d branch(es) establishing %s=%v in %s, expected >= %d", n, g.Re, g.Val, fname, min), n)
+		return
+	}
+	c.ok(key, rule, desc, n)
+}
+
+// returnsMatching renders the last result of returns whose rendering contains sub.
+func (c *Ctx) returnsMatching(fname, sub string) []string {
+	fn := c.F(fname)
+	var out []string
+	for _, in := range Instrs(fn, IsReturn) {
+		r := in.(*ssa.Return)
+		if len(r.Results) == 0 {
+			continue
+		}
+		s := c.P.Render(returnedValue(r, len(r.Results)-1))
+		if strings.Contains(s, sub) {
+			out = append(out, s)
+		}
+	}
+	return out
+}
